@@ -2,8 +2,8 @@
 (* Binding B for Trampoline.tla: a batch of traces recorded from the real TrampolineScheduler /
    CurrentThreadScheduler / singleton under controlled schedules (DetSched) or on one thread with
    the controlled clock.  A trace is the totally ordered event list
-       [e |-> "call",  th, clk, op ("imm"|"rel"|"reln"|"abs"|"cancel"), s, a, id]
-       [e |-> "ret",   th, clk]
+       [e |-> "call",  th, clk, op ("imm"|"rel"|"reln"|"abs"|"cancel"|"req"), s, a, id]
+       [e |-> "ret",   th, clk, res]      res = 1/0 for schedule_required(), 2 otherwise
        [e |-> "start", th, clk, id]       the action of item id begins on thread th
        [e |-> "end",   th, clk, id]
    (id = number of the schedule call in the global call order; a = delay / absolute time /
@@ -31,7 +31,7 @@ TInit == /\ tid \in 1..NTraces /\ l = 1 /\ Init
 \* time passes between two events
 TClock == /\ More /\ Ev.clk > clock /\ clock' = Ev.clk
           /\ UNCHANGED <<n, isch, itr, iown, due, eff, enq, com, queue, ghost, runner, committed, running, stack, stamp, dead,
-                         retd, ran, active, budget, top, body, tops, amb, tid, l>>
+                         retd, ran, active, budget, top, body, tops, amb, reqs, tid, l>>
 
 TCallS == /\ Now /\ Ev.e = "call" /\ Ev.op \in {"imm", "rel", "reln", "abs"} /\ Ev.id = n + 1 /\ Step
           /\ CallSched(Ev.th, Ev.s, Ev.op, Ev.a)
@@ -40,7 +40,12 @@ TCallS == /\ Now /\ Ev.e = "call" /\ Ev.op \in {"imm", "rel", "reln", "abs"} /\ 
 TCallC == /\ Now /\ Ev.e = "call" /\ Ev.op = "cancel" /\ Step
           /\ CallCancel(Ev.th, Ev.a)
 
+TCallR == /\ Now /\ Ev.e = "call" /\ Ev.op = "req" /\ Step
+          /\ CallReq(Ev.th, Ev.s)
+
+\* the logged result of schedule_required() must be the one the linearization produced
 TRet == /\ Now /\ Ev.e = "ret" /\ Step
+        /\ stack[Ev.th] # <<>> /\ (Top(Ev.th).k = "req" => Ev.res = Top(Ev.th).res)
         /\ Ret(Ev.th)
 
 TStart == /\ Now /\ Ev.e = "start" /\ Step
@@ -50,10 +55,10 @@ TEnd == /\ Now /\ Ev.e = "end" /\ Step
         /\ stack[Ev.th] # <<>> /\ Top(Ev.th).id = Ev.id
         /\ End(Ev.th)
 
-TSilent == /\ \E th \in Threads : Lin(th) \/ Release(th) \/ \E x \in 1..n : Commit(th, x)
+TSilent == /\ \E th \in Threads : Lin(th) \/ LinReq(th) \/ Release(th) \/ \E x \in 1..n : Commit(th, x)
            /\ UNCHANGED tvars
 
-TNext == TClock \/ TCallS \/ TCallC \/ TRet \/ TStart \/ TEnd \/ TSilent
+TNext == TClock \/ TCallS \/ TCallC \/ TCallR \/ TRet \/ TStart \/ TEnd \/ TSilent
 
 \* furthest position reached per trace (register tid); registers are initialised by the ASSUME
 Track == TLCSet(tid, IF TLCGet(tid) < l THEN l ELSE TLCGet(tid))
